@@ -542,7 +542,43 @@ pub fn two_actor_check<T: PartialEq + Send + std::fmt::Debug>(
     let mut n = 0u64;
     let mut blocked_reported = false;
     let decode = &decode;
+    // a schedule that never completes (a lock taken twice on one thread, two threads waiting for
+    // each other) must end in a verdict, not in a hung check: a monitor thread watches a heartbeat
+    let beat = std::sync::Arc::new(std::sync::atomic::AtomicU64::new(0));
+    let done = std::sync::Arc::new(std::sync::atomic::AtomicBool::new(false));
+    {
+        let (beat, done) = (beat.clone(), done.clone());
+        let ctx_addr = ctx as *const crate::core::Ctx as usize;
+        let what_s = what.to_string();
+        let wit = witness("stuck", 0);
+        std::thread::spawn(move || {
+            let mut last = (0u64, std::time::Instant::now());
+            loop {
+                std::thread::sleep(Duration::from_millis(500));
+                if done.load(Ordering::SeqCst) {
+                    return;
+                }
+                let b = beat.load(Ordering::SeqCst);
+                if b != last.0 {
+                    last = (b, std::time::Instant::now());
+                } else if last.1.elapsed() > Duration::from_secs(60) {
+                    // SAFETY: every Ctx is leaked for the life of the process (main.rs)
+                    let ctx = unsafe { &*(ctx_addr as *const crate::core::Ctx) };
+                    let step = b;
+                    ctx.fail(
+                        &format!("interleaving:{what_s}:schedule_never_completes"),
+                        || format!("{what_s}: schedule step {step} (two decodes interleaved at the reader seam, or a decode re-entered from inside a read call) made no progress for 60 s: the threads wait for each other or for themselves"),
+                        || wit.clone(),
+                    );
+                    // (printing can fail if the parent is already gone; the process must end regardless)
+                    let code = std::panic::catch_unwind(std::panic::AssertUnwindSafe(|| ctx.finish("other", serde_json::json!({"evaluations": step, "distinct_nontrivial": 0, "rule": "aborted: an interleaving schedule never completed", "samples": []}), vec![]))).unwrap_or(1);
+                    std::process::exit(if crate::core::variant_name().is_some() { 0 } else { code });
+                }
+            }
+        });
+    }
     for &k in &points {
+        beat.fetch_add(1, Ordering::SeqCst);
         // ---- P(k)
         n += 1;
         let (a_res, b_res, blocked) = std::thread::scope(|s| {
@@ -584,6 +620,7 @@ pub fn two_actor_check<T: PartialEq + Send + std::fmt::Debug>(
                 ),
             }
         }
+        beat.fetch_add(1, Ordering::SeqCst);
         // ---- N(k): the reader re-enters the decoder (same bytes, fresh reader) inside read call k
         n += 1;
         let nested_ok = std::cell::Cell::new(true);
@@ -607,6 +644,7 @@ pub fn two_actor_check<T: PartialEq + Send + std::fmt::Debug>(
                 || witness("reenter", k),
             );
         }
+        beat.fetch_add(1, Ordering::SeqCst);
         // ---- F(k)
         n += 1;
         let after = std::thread::scope(|s| {
@@ -624,6 +662,7 @@ pub fn two_actor_check<T: PartialEq + Send + std::fmt::Debug>(
             ),
         }
     }
+    done.store(true, Ordering::SeqCst);
     n
 }
 
